@@ -508,8 +508,8 @@ func TestVerif_C25(t *testing.T) {
 	cur := &common.CustodianUpdateRequest{Custodian: &custodian}
 	payeeIndex := make(map[crypto.Key]int) // public spend key -> pool index, for reports only
 
-	nDirect := r.N(40000, 500000)
-	nTx := r.N(1600, 40000)
+	nDirect := r.N(30000, 500000)
+	nTx := r.N(1200, 40000)
 	perMembership := 40
 	sizes := vC25MaxNodes - vC25MinNodes + 1
 
